@@ -6,6 +6,7 @@ import (
 	"fmt"
 	"os"
 	"path/filepath"
+	"reflect"
 	"strings"
 
 	"github.com/vimeo/dials/ez"
@@ -26,6 +27,8 @@ type c14EzCfg struct {
 	BindAddress string      `dials:"bindAddress" dialsalias:"listenAddress"`
 	MaxConn     int         `dialsalias:"connLimit"`
 	Nested      c14EzNested `dials:"nestedBlock" dialsalias:"legacyBlock"`
+	// a collection under an alias: an explicitly empty list is a value too
+	HostList []string `dials:"hostList" dialsalias:"serverList"`
 }
 
 // ConfigPath implements ez.ConfigWithConfigPath.
@@ -97,6 +100,41 @@ func c14Ez(w *fw.Worker, i int, r *fw.Rand) {
 			both = append(both, f.goName)
 		}
 	}
+	// the aliased list: neither / primary / alias / both, with empty lists among the values
+	hostDefault := []string(nil)
+	if r.Bool() {
+		hostDefault = []string{"from-default"}
+	}
+	want.HostList = hostDefault
+	{
+		hp, ha := key("hostList", "host", "list"), key("serverList", "server", "list")
+		list := func() []string {
+			if r.Chance(40) {
+				return []string{}
+			}
+			uniq++
+			return []string{fmt.Sprintf("h%d", uniq)}
+		}
+		p := r.Intn(4)
+		pat += fmt.Sprintf("|list=%d", p)
+		switch p {
+		case 1:
+			l := list()
+			doc[hp], want.HostList = l, l
+		case 2:
+			l := list()
+			doc[ha], want.HostList = l, l
+		case 3:
+			doc[hp], doc[ha] = list(), list()
+			both = append(both, "HostList")
+		}
+		if l, ok := doc[hp].([]string); ok && len(l) == 0 {
+			pat += "e"
+		}
+		if l, ok := doc[ha].([]string); ok && len(l) == 0 {
+			pat += "E"
+		}
+	}
 	if r.Bool() {
 		nested[key("plainField", "plain", "field")] = "pf"
 		want.Nested.Plain = "pf"
@@ -145,7 +183,7 @@ func c14Ez(w *fw.Worker, i int, r *fw.Rand) {
 		return
 	}
 	defer os.Remove(path)
-	cfg := &c14EzCfg{Path: path}
+	cfg := &c14EzCfg{Path: path, HostList: append([]string(nil), hostDefault...)}
 	want.Path = path
 	fs, err := stdflagsrc.NewSetWithArgs(stdflagsrc.DefaultFlagNameConfig(), cfg, nil)
 	if err != nil {
@@ -161,7 +199,7 @@ func c14Ez(w *fw.Worker, i int, r *fw.Rand) {
 	ctx, cancel := context.WithCancel(context.Background())
 	defer cancel()
 	d, derr := ez.FileExtensionDecoderConfigEnvFlag(ctx, cfg, params)
-	w.Count("aliased_leaves_judged", 4)
+	w.Count("aliased_leaves_judged", 5)
 	w.Count("ez_alias_cases", 1)
 	if len(both) > 0 {
 		if derr == nil {
@@ -185,7 +223,7 @@ func c14Ez(w *fw.Worker, i int, r *fw.Rand) {
 			return
 		}
 		got := *d.View()
-		if got != want {
+		if !reflect.DeepEqual(got, want) {
 			cls := "file-field-name-encoder"
 			if !kebab {
 				cls = "plain"
